@@ -83,6 +83,39 @@ pub fn dispatch(op: &str, a: &[&str]) -> Option<Ans> {
             };
             (r, "n/a".into())
         }
+        // cont_ops <m> <data>: resize(m, 0) and clone give the same bytes in every resizable container (Vec, heap, unlocked, locked,
+        // read-only locked for clone)
+        #[cfg(feature = "nightly")]
+        "cont_ops" => {
+            use dryoc::protected::*;
+            let m: usize = a[0].parse().unwrap();
+            let data = unhex(a[1]);
+            let mut v = data.clone();
+            v.resize(m, 0);
+            let mut hb = HeapBytes::from(data.as_slice());
+            hb.resize(m, 0);
+            if hb.as_slice() != v { return Some((format!("mismatch HeapBytes::resize {}", hex(hb.as_slice())), ok(&v))); }
+            let mut lk = HeapBytes::from_slice_into_locked(&data).unwrap();
+            lk.resize(m, 0);
+            if lk.as_slice() != v { return Some((format!("mismatch Locked<HeapBytes>::resize {}", hex(lk.as_slice())), ok(&v))); }
+            let mut ul = HeapBytes::from_slice_into_locked(&data).unwrap().munlock().unwrap();
+            ul.resize(m, 0);
+            if ul.as_slice() != v { return Some((format!("mismatch Unlocked<HeapBytes>::resize {}", hex(ul.as_slice())), ok(&v))); }
+            // clones keep the bytes
+            let l2 = HeapBytes::from_slice_into_locked(&data).unwrap();
+            let c1 = l2.clone();
+            let ro = HeapBytes::from_slice_into_readonly_locked(&data).unwrap();
+            let c2 = ro.clone();
+            let uro = HeapBytes::from_slice_into_locked(&data).unwrap().munlock().unwrap().mprotect_readonly().unwrap();
+            let c3 = uro.clone();
+            let c4 = HeapBytes::from(data.as_slice()).clone();
+            if c1.as_slice() != data || c2.as_slice() != data || c3.as_slice() != data || c4.as_slice() != data {
+                return Some((format!("mismatch clone locked={} lockedro={} unlockedro={} heap={}", hex(c1.as_slice()), hex(c2.as_slice()), hex(c3.as_slice()), hex(c4.as_slice())), ok(&v)));
+            }
+            (ok(&v), ok(&v))
+        }
+        #[cfg(not(feature = "nightly"))]
+        "cont_ops" => ("n/a".into(), "n/a".into()),
         // serde_ser <cont> <fmt> <payload>: every container serialises a byte string the same way
         "serde_ser" => {
             let (cont, fmt) = (a[0], a[1]);
